@@ -21,7 +21,7 @@ for m in MUT:
         open(p, "w").write(s.replace(e["old"], e["new"], 1))
     if not ok:
         results.append((m["id"], m["property"], "n/a")); shutil.rmtree(root, ignore_errors=True); continue
-    env = dict(os.environ, VERIF_REPO_SRC=root + "/src", VERIF_NO_DET="1", VERIF_SEED=os.environ.get("VERIF_SEED", "0"))
+    env = dict(os.environ, VERIF_EVIDENCE_DIR=root + "/ev", VERIF_REPO_SRC=root + "/src", VERIF_NO_DET="1", VERIF_SEED=os.environ.get("VERIF_SEED", "0"))
     if m.get("cases"):
         env["VERIF_CASES"] = str(m["cases"])
     t0 = time.time()
@@ -33,5 +33,3 @@ for m in MUT:
     results.append((m["id"], m["property"], res))
     shutil.rmtree(root, ignore_errors=True)
 json.dump(results, open("/verif/tools/sensitivity_last.json", "w"), indent=1)
-# evidence files written by mutant runs are not evidence for /repo: restore them from git
-subprocess.run("cd /verif && git checkout -- evidence 2>/dev/null", shell=True)
